@@ -172,10 +172,17 @@ template <typename NumericType>
                 "The NumericType template parameter of PhQ::Print<NumericType> must be a numeric "
                 "floating-point type: float, double, or long double.");
   const NumericType absolute{std::abs(value)};
+  // The decimal thresholds 0.001, 0.01, and 0.1 are not binary floating-point numbers. They are
+  // written as the smallest long double numbers that are not less than them, so that each comparison
+  // below is exact for float, double, and long double values alike (no value of any of the three
+  // types lies between 10^k and the constant that stands for it).
+  constexpr long double one_thousandth{0x83126E978D4FDF3Cp-73L};
+  constexpr long double one_hundredth{0xA3D70A3D70A3D70Bp-70L};
+  constexpr long double one_tenth{0xCCCCCCCCCCCCCCCDp-67L};
   std::ostringstream stream;
   if (absolute < 1.0) {
     // Interval: [0, 1[
-    if (absolute < 0.001) {
+    if (absolute < one_thousandth) {
       // Interval: [0, 0.001[
       if (absolute == 0.0) {
         // Interval: [0, 0]
@@ -187,9 +194,9 @@ template <typename NumericType>
       }
     } else {
       // Interval: [0.001, 1[
-      if (absolute < 0.1) {
+      if (absolute < one_tenth) {
         // Interval: [0.001, 0.1[
-        if (absolute < 0.01) {
+        if (absolute < one_hundredth) {
           // Interval: [0.001, 0.01[
           stream << std::fixed
                  << std::setprecision(std::numeric_limits<NumericType>::max_digits10 + 3) << value;
